@@ -124,6 +124,7 @@ impl<'a> World<'a> {
             weak_rng: [0, 0],
             profile: "stale-incarnation".into(),
             stateless_accept: false,
+            alien_token: 0,
         };
         let mut w = World::new(NetProp::C03, &cfg);
         w.wirelog = Some([Vec::new(), Vec::new()]);
@@ -230,6 +231,13 @@ impl<'a> World<'a> {
                     }
                 };
                 let t = tok.unwrap_or([0xff; 4]);
+                if which == 4 && r.chance(1, 3) {
+                    // a token request padded to (about) the size the protocol demands, sent Huffman-compressed:
+                    // a few dozen bytes on the wire
+                    let t = if r.chance(1, 2) { [0xff; 4] } else { t };
+                    body.resize(*r.pick(&[511usize, 512, 512, 513, 600]), 0);
+                    return v7_make(1, ack_all, 0, t, &body, true);
+                }
                 if which == 4 && t == [0xff; 4] {
                     body.resize(512, 0);
                 }
@@ -635,7 +643,9 @@ impl<'a> World<'a> {
             TokenOf::Some(t) => {
                 // the protocol's explicit exception: unauthenticated token request to a waiting 0.7 acceptor
                 let ctrl_byte = if d.len() >= 8 && d[0] & 0x10 != 0 { HUFFMAN.decompress_into_vec(&d[7..]).ok().and_then(|p| p.first().copied()) } else { d.get(7).copied() };
-                if self.cfg.proto.is_v7() && state == "PendingConnect" && t == [0xff; 4] && d.len() >= 8 && d[0] & 0x04 != 0 && ctrl_byte == Some(5) {
+                // (the protocol defines that request as a datagram of at least 519 bytes ON THE WIRE — its defence
+                // against being used as an amplifier; a shorter one that merely unpacks to that size is not it)
+                if self.cfg.proto.is_v7() && state == "PendingConnect" && t == [0xff; 4] && d.len() >= 519 && d[0] & 0x04 != 0 && ctrl_byte == Some(5) {
                     ctx.count("probe_inject_skipped_v7_token_request_exception");
                     return None;
                 }
